@@ -54,13 +54,13 @@ func resReplay(s *Summary, raw json.RawMessage) {
 			continue
 		}
 		for rep := 0; rep < 6; rep++ {
-			resRun(s, &c, ctl, base, rep%3)
+			resRun(s, &c, ctl, base, rep%3, rep >= 3)
 		}
 	}
 }
 
 // placement 0: at top level; 1: inside a root-prefix group with three Use calls; 2: inside a group with the prefix /n
-func resRun(s *Summary, c *resCase, ctl resCtl, base string, placement int) {
+func resRun(s *Summary, c *resCase, ctl resCtl, base string, placement int, legacy bool) {
 	nested := placement == 1
 	outer := ""
 	if placement == 2 {
@@ -73,6 +73,22 @@ func resRun(s *Summary, c *resCase, ctl resCtl, base string, placement int) {
 	}
 	r := rux.New()
 	r.GET("/unrelated", nopHandler)
+	if legacy && placement == 0 {
+		// hand-written routes on the fixed paths of the resource exist already (an application being migrated): the
+		// resource's actions replace them
+		lroot := "/" + strings.Trim(base+name, "/")
+		old := func(c *rux.Context) { c.WriteString("legacy") }
+		for _, a := range c.Impl {
+			switch a {
+			case "Index":
+				r.GET(lroot, old)
+			case "Create":
+				r.GET(lroot+"/create", old)
+			case "Store":
+				r.POST(lroot, old)
+			}
+		}
+	}
 	var pan any
 	grp := nested
 	func() {
@@ -108,7 +124,7 @@ func resRun(s *Summary, c *resCase, ctl resCtl, base string, placement int) {
 	}
 	got := map[string]bool{}
 	for _, ri := range r.Routes() {
-		if ri.Path == "/unrelated" {
+		if ri.Path == "/unrelated" || (legacy && ri.Name == "") {
 			continue
 		}
 		ms := append([]string{}, ri.Methods...)
